@@ -284,7 +284,9 @@ class DelayedS3Writer(S3Limits):
             mpu.uploadId = uploadId
             return mpu
 
-        lock = DLock(self._build_name("MPULock"), client)
+        # the lock finds the client of the running task on its own: its second positional
+        # parameter is a client only in older releases of distributed
+        lock = DLock(self._build_name("MPULock"))
         with lock:
             uploadId = _safe_get(shared_state, 0.1)
             if uploadId is not None:
